@@ -315,7 +315,12 @@ class ThreadingApplication(Application):
                     recv_message,
                     result_code=constants.E_RESULT_CODE_DIAMETER_TOO_BUSY,
                     error_message="Insufficient resources to handle the request")
-                self.send_answer(answer)
+                try:
+                    self.send_answer(answer)
+                except Exception as e:
+                    logger.warning(
+                        f"{self} failed to send an answer for "
+                        f"{hex(recv_message.header.hop_by_hop_identifier)}: {e}")
                 continue
 
             process_message = threading.Thread(
@@ -341,7 +346,14 @@ class ThreadingApplication(Application):
             except Exception:
                 pass
             if isinstance(resp_message, Message):
-                self.send_answer(resp_message)
+                try:
+                    self.send_answer(resp_message)
+                except Exception as e:
+                    # e.g. the requesting peer has gone away in the meantime;
+                    # this must not end the consumer thread
+                    logger.warning(
+                        f"{self} failed to send an answer for "
+                        f"{hex(resp_message.header.hop_by_hop_identifier)}: {e}")
 
     def _process_recv_msg(self, message: Message):
         try:
@@ -351,8 +363,9 @@ class ThreadingApplication(Application):
             answer = self.generate_answer(
                 message,
                 result_code=constants.E_RESULT_CODE_DIAMETER_UNABLE_TO_COMPLY)
-        if answer is not None:
-            self._resp_msg_queue.put(answer)
+        # always report back, also when there is no answer to send, so that the
+        # thread slot taken for this request is returned
+        self._resp_msg_queue.put(answer)
 
     def handle_request(self, message: Message) -> Message | None:
         """Called by diameter node every time a request message is received.
